@@ -218,3 +218,13 @@ def polygon_edge_certificate(D, P, Q):
         return h_t.xreplace(dict(zip(T, X)))
     resid = sp.expand(D - (h(Q) - h(P)))
     return resid == 0, resid
+
+
+def cancel_sums(expr):
+    """one reduced fraction, treating every canonical Sum as an indeterminate (exact rational-function algebra)"""
+    from .oblig import sums_to_symbols, _SUM_SYMS
+    e = canon(expr)
+    e1 = sums_to_symbols(e)
+    out = sp.cancel(sp.together(e1))
+    back = {v: k for k, v in _SUM_SYMS.items()}
+    return out.xreplace(back)
